@@ -2,7 +2,7 @@
 (* Growth: GraphBuilder.replace_node / rename (model.py:684-737) on a graph  *)
 (* of nodes 1..N with ordered inputs inp[n], names name[n] ("" = unnamed)    *)
 (* and the set `added` of nodes explicitly added to the builder.             *)
-EXTENDS Naturals, Sequences, FiniteSets
+EXTENDS Naturals, Sequences, FiniteSets, TLC
 
 SeqSet(s) == {s[i] : i \in 1..Len(s)}
 RECURSIVE Closure(_, _, _)
@@ -23,6 +23,47 @@ ReplaceInputs(inp, added, old, new) ==
 Renamed(inp, added, name, Sub(_)) ==
   LET C == Closure(inp, added, {}) IN
   [n \in DOMAIN name |-> IF n \in C /\ name[n] # "" THEN Sub(name[n]) ELSE name[n]]
+
+-----------------------------------------------------------------------------
+(* GraphBuilder.update / copy / count_node_names (model.py:574-596, 957-975).                         *)
+(* The builder walks its graph with a stack: the explicitly added nodes in the order they were added, *)
+(* the last one first, the inputs of a node pushed in their order (so the last input is visited       *)
+(* next); a node is visited once.  Unnamed nodes are named n0, n1, ... in that visiting order,        *)
+(* skipping names that are taken.                                                                     *)
+RECURSIVE Trav(_, _, _)
+Trav(inp, stack, seen) ==
+  IF stack = <<>> THEN seen
+  ELSE LET n == stack[Len(stack)]
+           rest == SubSeq(stack, 1, Len(stack) - 1)
+       IN IF n \in SeqSet(seen) THEN Trav(inp, rest, seen) ELSE Trav(inp, rest \o inp[n], Append(seen, n))
+Visit(inp, addedSeq) == Trav(inp, addedSeq, <<>>)
+
+NmB(k) == "n" \o ToString(k)
+RECURSIVE NameInOrder(_, _, _, _, _)
+\* name: current names; order: visiting order; i: position; k: counter; C: the reachable nodes (whose names count as taken)
+NameInOrder(name, order, i, k, C) ==
+  IF i > Len(order) THEN name
+  ELSE IF name[order[i]] # "" THEN NameInOrder(name, order, i + 1, k, C)
+  ELSE IF NmB(k) \in {name[x] : x \in C} THEN NameInOrder(name, order, i, k + 1, C)
+  ELSE NameInOrder([name EXCEPT ![order[i]] = NmB(k)], order, i + 1, k + 1, C)
+MissingNamesSet(inp, addedSeq, name) ==
+  LET order == Visit(inp, addedSeq) IN NameInOrder(name, order, 1, 0, SeqSet(order))
+
+\* update(): every node the builder reaches is computed from scratch (ids are topological), the others keep what they hold
+RECURSIVE JoinB(_, _)
+JoinB(args, i) == IF i > Len(args) THEN "" ELSE (IF i > 1 THEN "," ELSE "") \o args[i] \o JoinB(args, i + 1)
+ApB(n, args) == "f" \o ToString(n) \o "(" \o JoinB(args, 1) \o ")"       \* symbolic regime: term strings
+RECURSIVE FreshB(_, _, _, _)
+FreshB(inp, C, val, k) ==
+  IF k = 0 THEN val
+  ELSE LET w == FreshB(inp, C, val, k - 1) IN
+       IF k \in C /\ inp[k] # <<>> THEN [w EXCEPT ![k] = ApB(k, [i \in 1..Len(inp[k]) |-> w[inp[k][i]]])] ELSE w
+UpdatedVals(inp, addedSeq, val) == FreshB(inp, SeqSet(Visit(inp, addedSeq)), val, Len(inp))
+
+\* count_node_names(): how often each non-empty name occurs among the nodes the builder reaches
+NameCounts(inp, addedSeq, name) ==
+  LET C == SeqSet(Visit(inp, addedSeq)) IN
+  [nm \in {name[n] : n \in C} \ {""} |-> Cardinality({n \in C : name[n] = nm})]
 
 -----------------------------------------------------------------------------
 (* GraphBuilder.replace_var(old, new) (model.py:722-737).  Variables are     *)
